@@ -398,7 +398,10 @@ Section CompVec.
     let! (pp, c7) := rd_values c6 ppl in
     let! (pl, c8) := rd_u64 c7 in
     if two64 <=? size * pl then Err EOverflow else
-    let! _ := rd_skip c8 (size * pl) in
+    let! c9 := rd_skip c8 (size * pl) in
+    (* cursor.rs expect_end (397122a), called by deserialize_then_undo_changes right after the parse:
+       the record must be consumed exactly *)
+    if negb (len (fst c9) =? 0) then Err EWrongLength else
     Ok (mkChange ps psl (psl - tc) tv pp).
 
   (* compressed rollback.rs:26 deserialize_then_undo_changes + base apply_rollback *)
